@@ -41,6 +41,16 @@ from ..log import logger
 from . import const as e_const
 
 _global_ebp_lock = threading.Lock()
+
+
+def _verif_trace(direction, pid, data):
+    """Verification hook: when PKGCORE_VERIF_TRACE names a file, append every
+    protocol line written to / read from an ebuild daemon to it.  No-op otherwise."""
+    path = os.environ.get("PKGCORE_VERIF_TRACE")
+    if path:
+        with open(path, "a") as f:
+            f.write(f"{direction} {pid} {data!r}\n")
+
 inactive_ebp_list = []
 active_ebp_list = []
 
@@ -500,6 +510,7 @@ class EbuildProcessor:
         try:
             if append_newline and string != "\n":
                 string += "\n"
+            _verif_trace("W", self.pid, string)
             self.ebd_write.write(string)
             if flush:
                 self.ebd_write.flush()
@@ -559,6 +570,7 @@ class EbuildProcessor:
         mydata = []
         while lines > 0:
             mydata.append(self.ebd_read.readline().decode())
+            _verif_trace("R", self.pid, mydata[-1])
             cmd, _, args_str = mydata[-1].strip().partition(" ")
             if cmd == "SIGINT":
                 chuck_KeyboardInterrupt(self, args_str)
